@@ -99,4 +99,12 @@ def WFSetting : GroupSetting → Prop
 
 def WF (m : Msg) : Prop := m.group_number < 256 ∧ WFSetting m.setting
 
+/-- run-time test of `WF` (see `Lemmas.At4X2A.wfBool_iff`) -/
+def wfSettingBool : GroupSetting → Bool
+  | .damper p => decide (p < 256)
+  | .setPoint sp => decide (sp < 256)
+  | _ => true
+
+def wfBool (m : Msg) : Bool := decide (m.group_number < 256) && wfSettingBool m.setting
+
 end PyAirtouch.Model.At4.X2A
